@@ -405,7 +405,7 @@ func Verif_C01_link_lost_at_any_stage() {
 	verifapi.Assert("x-first-reached-through-b", verifapi.All(s.routingTable["X"] == "B", s.routingPathCosts["X"] == 2))
 	cost := verifapi.Float()
 	verifapi.Assume(verifapi.All(cost > 0, cost < 2))
-	stage := verifapi.Choose(3)
+	stage := verifapi.Choose(4) // 3: the established session is ended by a rejection message from the peer
 	xUpdate := func(id string, seq uint64) []byte {
 		ru := &routingUpdate{NodeID: "X", UpdateID: id, UpdateEpoch: 5, UpdateSequence: seq,
 			Connections: map[string]float64{"A": cost, "B": 1}, ForwardingNode: "X"}
@@ -418,12 +418,17 @@ func Verif_C01_link_lost_at_any_stage() {
 	if stage >= 2 {
 		script = append(script, xUpdate("u3", 3))
 	}
+	if stage == 3 {
+		script = append(script, []byte{MsgTypeReject})
+	}
 	r := verifStartProtocol(n, script, &BackendInfo{connectionCost: cost})
 	serve()
 	verifapi.Cover("direct-link-up")
-	_, up := s.connections["X"]
-	verifapi.Assert("direct-link-established", up)
-	verifapi.Assert("direct-link-used-while-it-is-cheaper", verifapi.All(s.routingTable["X"] == "X", s.routingPathCosts["X"] == cost))
+	if stage != 3 {
+		_, up := s.connections["X"]
+		verifapi.Assert("direct-link-established", up)
+		verifapi.Assert("direct-link-used-while-it-is-cheaper", verifapi.All(s.routingTable["X"] == "X", s.routingPathCosts["X"] == cost))
+	}
 	close(r.sess.gate) // the session ends: the link is lost
 	serve()
 	// X's own last word (relayed by B): it no longer lists A
